@@ -10,6 +10,10 @@ Tree nodes (tuples):
   ('expr', reads)                         g(a, b)
   ('assign', reads, binds, form)          forms: plain ann walrus tuple chain star import from def class
   ('with', reads, binds, body)
+  ('comp', iter_reads, cond_reads|None, elt_reads, binds, form, body)
+                                          x = [g(elt) for _ in it(iter) if c(cond)]; forms: plain ann walrus with
+                                          (function and module scope only: in a class body the element is
+                                          evaluated in a scope that does not see the class names)
   ('if', reads, body, orelse)
   ('while', reads, body, orelse)
   ('for', reads, binds, body, orelse)
@@ -37,7 +41,7 @@ DOTTED = [('os', 'os.path'), ('xml', 'xml.dom'), ('json', 'json.decoder'), ('ema
 
 class Gen(object):
     def __init__(self, rng, allow_return=True, allow_try=True, full_raise=False, max_depth=3,
-                 max_stmts=10, multi_handlers=True, names=None, exits=False):
+                 max_stmts=10, multi_handlers=True, names=None, exits=False, comps=True):
         self.rng = rng
         self.site = 0
         self.allow_return = allow_return
@@ -56,6 +60,7 @@ class Gen(object):
         self.pending = []           # statements to emit right after the current one
         self.exits = exits          # C01: break / continue / raise anywhere
         self.loop_depth = 0
+        self.comps = comps          # comprehension values (F59)
 
     def new(self):
         self.site += 1
@@ -112,7 +117,20 @@ class Gen(object):
                 forms += ['import', 'from']
             if self.dotted:
                 forms += ['dotted']
+            if self.comps:
+                forms += ['comp', 'comp']
             form = self.rng.choice(forms)
+            if form == 'comp':
+                # the target is usually one of the names the element reads (F59)
+                it = self.reads(0, 1)
+                cond = self.reads(1, 1) if self.rng.random() < 0.3 else None
+                elt = self.reads(1, 2)
+                b = self.bind()
+                if self.rng.random() < 0.6:
+                    b = (b[0], self.rng.choice(elt + (cond or []))[1])
+                cf = self.rng.choice(['plain', 'plain', 'ann', 'walrus', 'with'])
+                body = self.body(depth + 1, in_finally, no_ret, 1, 2) if cf == 'with' else []
+                return ('comp', it, cond, elt, [b], cf, body)
             if form == 'dotted':
                 # `import pkg.mod` binds pkg; usually read right afterwards
                 pkg, mod = self.dotted.pop()
@@ -243,6 +261,11 @@ def to_coq(n):
         return seq(rd_terms(n[1]) + bd_terms(n[2]))
     if k == 'with':
         return seq(rd_terms(n[1]) + bd_terms(n[2]) + [body_coq(n[3])])
+    if k == 'comp':
+        elt = '(Branch %s Skip)' % seq(rd_terms(n[3]))
+        if n[2] is not None:
+            elt = '(Branch %s Skip)' % seq(rd_terms(n[2]) + [elt])
+        return seq(rd_terms(n[1]) + [elt] + bd_terms(n[4]) + [body_coq(n[6])])
     if k == 'if':
         tb = n[4] if len(n) > 4 else []
         return seq(rd_terms(n[1]) + bd_terms(tb) + ['(Branch %s %s)' % (body_coq(n[2]), body_coq(n[3]))])
@@ -384,6 +407,25 @@ class Renderer(object):
                     self.emit(ind, '_reg(%r, %s, %d)' % (x, x, d))
             else:
                 raise ValueError(form)
+        elif k == 'comp':
+            it, cond, elt, binds, form, body = n[1:]
+            d, x = binds[0]
+            if ins:
+                comp = '[g(%s) for _ in _oc(%s)%s]' % (self.args(elt), self.args(it),
+                                                      (' if _ob(%s)' % self.args(cond)) if cond is not None else '')
+                val = '_b(dict(%s=%d), %s)' % (x, d, comp)
+            else:
+                val = '[g(%s) for _ in it(%s)%s]' % (self.args(elt), self.args(it),
+                                                     (' if c(%s)' % self.args(cond)) if cond is not None else '')
+            if form == 'plain':
+                self.emit(ind, '%s = %s' % (self.tgt(d, x), val))
+            elif form == 'ann':
+                self.emit(ind, '%s: list = %s' % (self.tgt(d, x), val))
+            elif form == 'walrus':
+                self.emit(ind, 'g(%s := %s)' % (self.tgt(d, x), val))
+            else:
+                self.emit(ind, 'with %s(%s) as %s:' % ('_cm' if ins else 'cm', val, self.tgt(d, x)))
+                self.body(body, ind + 1)
         elif k == 'with':
             reads, binds, body = n[1], n[2], n[3]
             d, x = binds[0]
@@ -566,6 +608,7 @@ def _reg(name, obj, site):
 _keep = []
 def _ob(*args): return _pop() == 0
 def _ow(*args): return _pop() != 0
+def _oc(*args): return [0] if _pop() == 0 else []
 def _it(tags, *args):
     while _pop() != 0:
         vs = tuple(_V(t) for t in tags)
@@ -636,6 +679,8 @@ def count_decisions_upper(body):
             total += 3 + 2 * count_decisions_upper(b) + count_decisions_upper(e)
         elif k == 'with':
             total += count_decisions_upper(n[3])
+        elif k == 'comp':
+            total += 2 + count_decisions_upper(n[6])
         elif k == 'try':
             total += 2 + count_decisions_upper(n[1]) + max([count_decisions_upper(h[2]) for h in n[2]] + [count_decisions_upper(n[3])]) + count_decisions_upper(n[4])
     return total
